@@ -50,7 +50,7 @@ func props() map[string]*PropSpec {
 		Faults:  "reorder/delay of control messages, dependency failure+rollback, node restart"})
 	add(&PropSpec{ID: "C03", Level: "exploration", Steps: [2]int{40, 140}, QuickN: 24000, ThorN: 1200000,
 		Profile: base().With(map[string]float64{"tx:forged": 16, "tx:mint": 8, "tx:lburn": 8, "tx:create": 10, "tx:addqty": 8, "tx:nftburn": 8, "tx:adduri": 8, "tx:updattr": 8, "tx:owner": 8, "tx:claim": 8, "tx:username": 8,
-			"sc:setrole": 14, "sc:unsetrole": 8, "sc:handover": 6, "tx:transfer": 3, "tx:nft": 3, "tx:multi": 3}),
+			"sc:setrole": 14, "sc:unsetrole": 8, "sc:handover": 6, "sc:forge-control": 5, "tx:transfer": 3, "tx:nft": 3, "tx:multi": 3}),
 		Rule:    "seeded histories in which every role-gated function is called by holders of arbitrary role subsets (incl. all-but-the-required one and the role for another token), control functions by users/contracts/DNS, owner/DNS functions by owners, ex-owners and strangers; case/distinct as for C01",
 		MustHit: []string{"ESDTLocalMint/snd/err-required", "ESDTNFTCreate/snd/err-required", "ESDTFreeze/snd/err-required", "ESDTSetRole/snd/err-required", "ChangeOwnerAddress/snd/err-required", "SetUserName/snd/err-required", "ESDTNFTCreateRoleTransfer/snd/err-required"},
 		Faults:  "reorder/delay of role set/unset/hand-over control messages relative to the operations they authorise, node restart"})
